@@ -514,8 +514,8 @@ def rewrite(d, subs, colour):
     return ('clamp', e2, guard, dflt if dflt_matters else None)
 
 
-def r9_operator_table(ck, P):
-    R = ck.rule('C09-R1', 'every strength reduction of operator_table (source opaque, destination opaque, both) preserves the operator\'s Porter-Duff factors under sa:=1 / da:=1', floor=150)
+def r9_operator_table(ck, P, rid='C09-R1'):
+    R = ck.rule(rid, 'every strength reduction of operator_table (source opaque, destination opaque, both) preserves the operator\'s Porter-Duff factors under sa:=1 / da:=1', floor=150)
     ops, N = operators(P)
     inv = {v: k for k, v in ops.items()}
     u, g = P.global_('operator_table')
